@@ -14,8 +14,9 @@ fn mk_bit(b: bool) -> Bit { if b { Bit::Bit1 } else { Bit::Bit0 } }
 
 /// a symbolic well-formed bit sequence, built through the public constructor
 fn any_seq(s: &mut Src) -> Option<BitSeq> {
-    let val = s.u64();
-    let len = s.usize();
+    // every well-formed value: any length 0..=64, any value of that many bits
+    let len = s.small(0, 64) as usize;
+    let val = s.u64() & low_mask(len);
     if !fits(val, len) { return None; }
     Some(BitSeq::new(val, len))
 }
@@ -241,6 +242,39 @@ pub fn bitseq_generate(s: &mut Src) -> R {
     Ok(())
 }
 
+
+// ---- parsing and printing (bounded stand-in: strings of length <= 3) ----
+pub fn bitseq_parse(s: &mut Src) -> R {
+    use std::str::FromStr;
+    let n = s.small(0, 3) as usize;
+    let (c0, c1, c2) = (s.u8(), s.u8(), s.u8());
+    reach!();
+    let bytes = [c0, c1, c2];
+    let mut st = String::new();
+    let mut k = 0;
+    while k < n { pre!(bytes[k] < 128); st.push(bytes[k] as char); k += 1; }
+    let r = BitSeq::from_str(&st);
+    let all_bits = (0..n).all(|k| bytes[k] == b'0' || bytes[k] == b'1');
+    ob!(r.is_ok() == all_bits, "from_str::accepts-exactly-0/1-strings");
+    if let Ok(b) = r {
+        ob!(b.len() == n, "from_str::len");
+        let mut k = 0;
+        while k < n { ob!(bit_of(b.as_u64(), k) == (bytes[k] == b'1'), "from_str::bit-k-is-char-k"); k += 1; }
+    }
+    Ok(())
+}
+pub fn bitseq_print(s: &mut Src) -> R {
+    let n = s.small(0, 3) as usize; let val = s.u64() & low_mask(n);
+    reach!();
+    let b = BitSeq::new(val, n);
+    let st = b.to_string();
+    ob!(st.len() == n, "to_string::len");
+    let by = st.as_bytes();
+    let mut k = 0;
+    while k < n { ob!(by[k] == if bit_of(val, k) { b'1' } else { b'0' }, "to_string::char-k-is-bit-k"); k += 1; }
+    Ok(())
+}
+
 // ---- rejection (variant A on the real crate): the call must panic ----
 
 pub fn bitseq_reject_push_full(s: &mut Src) -> R {
@@ -260,6 +294,6 @@ crate::harness_table!(BITSEQ:
     bitseq_new, bitseq_new_rev, bitseq_consts, bitseq_set, bitseq_push, bitseq_append,
     bitseq_remove, bitseq_insert, bitseq_sub, bitseq_is_sub, bitseq_index, bitseq_from_bit,
     bitseq_weight [unwind 66], bitseq_cmp [unwind 10], bitseq_iter [unwind 66],
-    bitseq_from_iter [unwind 66], bitseq_generate [unwind 10],
+    bitseq_from_iter [unwind 66], bitseq_generate [unwind 10], bitseq_parse [unwind 5], bitseq_print [unwind 5],
 );
 crate::harness_table_should_panic!(BITSEQ_REJECT: bitseq_reject_push_full, bitseq_reject_new_overlong);
